@@ -214,6 +214,13 @@ func c08(args []string) {
 					}
 					s.Cell = append(s.Cell, row)
 				}
+				// every tenth message is one part of a multiple-message group that carries fewer signal cells than its cell mask
+				// names (flag set): the cells that ARE there decode to what was sent and obey the same formulas
+				partial := mi%10 == 9
+				if partial {
+					s.MM = 1
+					s.Cell = s.Cell[:1+rng.Intn(len(s.Cell)-1)]
+				}
 				frame := tr.Frame(s.Encode())
 				lv := slog.LevelDebug
 				if mi%2 == 0 {
@@ -226,15 +233,17 @@ func c08(args []string) {
 					}
 					eval := func(emit bool) string {
 						var sum strings.Builder
+						flat := -1
 						for si, rowc := range m.Signals {
 							for i := range rowc {
 								cell := &rowc[i]
+								flat++
 								ev := c08Event{Fam: fam, Con: con, Sig: int(cell.ID), Whole: int(cell.Satellite.RangeWholeMillis), Frac: int(cell.Satellite.RangeFractionalMillis),
 									Fine: cell.RangeDelta, Phase: cell.PhaseRangeDelta, Floats: []string{}}
 								// the quantities of the formulas are the TRANSMITTED ones: what the decoder hands over is what was sent
 								sent := "a decoded field differs from the transmitted one"
-								if si < nsat && len(rowc) == nsig && len(m.Signals) == nsat {
-									tx, sat := s.Cell[si*nsig+i], s.Sat[si]
+								if si < nsat && flat < len(s.Cell) && (partial || (len(rowc) == nsig && len(m.Signals) == nsat && flat == si*nsig+i)) {
+									tx, sat := s.Cell[flat], s.Sat[si]
 									if int64(cell.RangeDelta) == tx[0] && int64(cell.PhaseRangeDelta) == tx[1] && int64(cell.Satellite.RangeWholeMillis) == sat[0] && int64(cell.Satellite.RangeFractionalMillis) == sat[1] {
 										sent = ""
 									}
@@ -270,14 +279,16 @@ func c08(args []string) {
 					}
 					eval := func(emit bool) string {
 						var sum strings.Builder
+						flat := -1
 						for si, rowc := range m.Signals {
 							for i := range rowc {
 								cell := &rowc[i]
+								flat++
 								ev := c08Event{Fam: fam, Con: con, Sig: int(cell.ID), Whole: int(cell.Satellite.RangeWholeMillis), Frac: int(cell.Satellite.RangeFractionalMillis),
 									Fine: cell.RangeDelta, Phase: cell.PhaseRangeDelta, RoughRate: cell.Satellite.PhaseRangeRate, FineRate: cell.PhaseRangeRateDelta, Floats: []string{}}
 								sent := "a decoded field differs from the transmitted one"
-								if si < nsat && len(rowc) == nsig && len(m.Signals) == nsat {
-									tx, sat := s.Cell[si*nsig+i], s.Sat[si]
+								if si < nsat && flat < len(s.Cell) && (partial || (len(rowc) == nsig && len(m.Signals) == nsat && flat == si*nsig+i)) {
+									tx, sat := s.Cell[flat], s.Sat[si]
 									if int64(cell.RangeDelta) == tx[0] && int64(cell.PhaseRangeDelta) == tx[1] && int64(cell.PhaseRangeRateDelta) == tx[5] && int64(cell.Satellite.RangeWholeMillis) == sat[0] &&
 										int64(cell.Satellite.RangeFractionalMillis) == sat[2] && int64(cell.Satellite.PhaseRangeRate) == sat[3] {
 										sent = ""
